@@ -69,77 +69,77 @@ theorem countCpr_le_length (q : List Key) : countCpr q ≤ q.length := by
   | cons k q ih => simp only [countCpr, List.length_cons]; split <;> omega
 
 /-- closed form of `process_keys` once the result is set: exactly the CPR responses are consumed -/
-def afterDone (q : List Key) (f : Key) (a : List Key) (c : Nat) : KP :=
-  ⟨dropCpr q, some f, a, c + countCpr q⟩
+def afterDone (q : List Key) (f : Key) (a : List Key) (c w : Nat) : KP :=
+  ⟨dropCpr q, some f, a, c + countCpr q, w - countCpr q⟩
 
-theorem iter_done (n : Nat) : ∀ (q : List Key) (f : Key) (a : List Key) (c : Nat),
-    countCpr q ≤ n → iter n ⟨q, some f, a, c⟩ = afterDone q f a c := by
+theorem iter_done (n : Nat) : ∀ (q : List Key) (f : Key) (a : List Key) (c w : Nat),
+    countCpr q ≤ n → iter n ⟨q, some f, a, c, w⟩ = afterDone q f a c w := by
   induction n with
   | zero =>
-    intro q f a c h
+    intro q f a c w h
     have h0 : countCpr q = 0 := by omega
     simp [iter, afterDone, h0, dropCpr_of_count_zero q h0]
   | succ n ih =>
-    intro q f a c h
+    intro q f a c w h
     cases hq : hasCpr q
     · have h0 := (hasCpr_eq_false_iff q).1 hq
       simp [iter, procStep, notEmpty, hq, afterDone, h0, dropCpr_of_count_zero q h0]
     · have sp := removeFirstCpr_spec q hq
       simp only [iter, procStep, notEmpty, Option.isSome_some, if_true, hq, handle]
-      rw [ih _ _ _ _ (by omega)]
+      rw [ih _ _ _ _ _ (by omega)]
       simp only [afterDone, sp.1]
-      congr 1; omega
+      congr 1 <;> omega
 
 /-- closed form of `process_keys` while no result is set -/
-def live (a : List Key) (c : Nat) : List Key → KP
-  | [] => ⟨[], none, a, c⟩
-  | .cpr :: q => live a (c + 1) q
-  | .other n :: q => live (a ++ [.other n]) c q
-  | .accept :: q => afterDone q .accept a c
-  | .abort :: q => afterDone q .abort a c
-  | .cj :: q => afterDone q .accept a c
+def live (a : List Key) (c w : Nat) : List Key → KP
+  | [] => ⟨[], none, a, c, w⟩
+  | .cpr :: q => live a (c + 1) (w - 1) q
+  | .other n :: q => live (a ++ [.other n]) c w q
+  | .accept :: q => afterDone q .accept a c w
+  | .abort :: q => afterDone q .abort a c w
+  | .cj :: q => afterDone q .accept a c w
 
-theorem iter_live : ∀ (q : List Key) (n : Nat) (a : List Key) (c : Nat),
-    q.length + 1 ≤ n → iter n ⟨q, none, a, c⟩ = live a c q := by
+theorem iter_live : ∀ (q : List Key) (n : Nat) (a : List Key) (c w : Nat),
+    q.length + 1 ≤ n → iter n ⟨q, none, a, c, w⟩ = live a c w q := by
   intro q
   induction q with
   | nil =>
-    intro n a c _
+    intro n a c w _
     cases n <;> simp [iter, procStep, notEmpty, live]
   | cons k q ih =>
-    intro n a c h
+    intro n a c w h
     obtain ⟨m, rfl⟩ : ∃ m, n = m + 1 := ⟨n - 1, by simp at h; omega⟩
     have hm : q.length + 1 ≤ m := by simp at h; omega
     have hc := countCpr_le_length q
     cases k with
-    | cpr => simp [iter, procStep, notEmpty, handle, live, ih m a (c + 1) hm]
-    | other x => simp [iter, procStep, notEmpty, handle, live, ih m _ c hm]
-    | accept => simp [iter, procStep, notEmpty, handle, live, iter_done m q _ a c (by omega)]
-    | abort => simp [iter, procStep, notEmpty, handle, live, iter_done m q _ a c (by omega)]
+    | cpr => simp [iter, procStep, notEmpty, handle, live, ih m a (c + 1) (w - 1) hm]
+    | other x => simp [iter, procStep, notEmpty, handle, live, ih m _ c w hm]
+    | accept => simp [iter, procStep, notEmpty, handle, live, iter_done m q _ a c w (by omega)]
+    | abort => simp [iter, procStep, notEmpty, handle, live, iter_done m q _ a c w (by omega)]
     | cj =>
       obtain ⟨m', rfl⟩ : ∃ m', m = m' + 1 := ⟨m - 1, by omega⟩
-      simp [iter, procStep, notEmpty, handle, live, iter_done m' q _ a c (by omega)]
+      simp [iter, procStep, notEmpty, handle, live, iter_done m' q _ a c w (by omega)]
 
-theorem processKeys_live (q a : List Key) (c : Nat) :
-    processKeys ⟨q, none, a, c⟩ = live a c q := by
-  unfold processKeys; exact iter_live q _ a c (by simp; omega)
+theorem processKeys_live (q a : List Key) (c w : Nat) :
+    processKeys ⟨q, none, a, c, w⟩ = live a c w q := by
+  unfold processKeys; exact iter_live q _ a c w (by simp; omega)
 
-theorem processKeys_done (q : List Key) (f : Key) (a : List Key) (c : Nat) :
-    processKeys ⟨q, some f, a, c⟩ = afterDone q f a c := by
-  unfold processKeys; exact iter_done _ q f a c (by have := countCpr_le_length q; simp; omega)
+theorem processKeys_done (q : List Key) (f : Key) (a : List Key) (c w : Nat) :
+    processKeys ⟨q, some f, a, c, w⟩ = afterDone q f a c w := by
+  unfold processKeys; exact iter_done _ q f a c w (by have := countCpr_le_length q; simp; omega)
 
 
 /-! ### the loop really ended: its condition is false afterwards -/
-theorem procStep_afterDone (q : List Key) (f : Key) (a : List Key) (c : Nat) :
-    procStep (afterDone q f a c) = none := by
+theorem procStep_afterDone (q : List Key) (f : Key) (a : List Key) (c w : Nat) :
+    procStep (afterDone q f a c w) = none := by
   have : hasCpr (dropCpr q) = false := (hasCpr_eq_false_iff _).2 (countCpr_dropCpr q)
   simp [procStep, notEmpty, afterDone, this]
 
-theorem procStep_live (q a : List Key) (c : Nat) : procStep (live a c q) = none := by
-  induction q generalizing a c with
+theorem procStep_live (q a : List Key) (c w : Nat) : procStep (live a c w q) = none := by
+  induction q generalizing a c w with
   | nil => simp [live, procStep, notEmpty]
   | cons k q ih =>
-    cases k <;> simp only [live] <;> first | exact ih _ _ | exact procStep_afterDone _ _ _ _
+    cases k <;> simp only [live] <;> first | exact ih _ _ _ | exact procStep_afterDone _ _ _ _ _
 
 /-! ### normal form of a key stream and conservation -/
 def normKey : Key → Key
@@ -161,13 +161,13 @@ theorem norm_nil : norm [] = [] := rfl
 def cur (p : KP) : List Key :=
   p.applied ++ (match p.done with | some f => [f] | none => [])
 
-theorem afterDone_conserve (q : List Key) (f : Key) (a : List Key) (c : Nat) :
-    cur (afterDone q f a c) ++ norm (afterDone q f a c).queue = a ++ [f] ++ norm q := by
+theorem afterDone_conserve (q : List Key) (f : Key) (a : List Key) (c w : Nat) :
+    cur (afterDone q f a c w) ++ norm (afterDone q f a c w).queue = a ++ [f] ++ norm q := by
   simp [cur, afterDone, norm_dropCpr]
 
-theorem live_conserve (q a : List Key) (c : Nat) :
-    cur (live a c q) ++ norm (live a c q).queue = a ++ norm q := by
-  induction q generalizing a c with
+theorem live_conserve (q a : List Key) (c w : Nat) :
+    cur (live a c w q) ++ norm (live a c w q).queue = a ++ norm q := by
+  induction q generalizing a c w with
   | nil => simp [live, cur, norm, dropCpr]
   | cons k q ih =>
     cases k with
@@ -179,7 +179,7 @@ theorem live_conserve (q a : List Key) (c : Nat) :
 
 theorem processKeys_conserve (p : KP) :
     cur (processKeys p) ++ norm (processKeys p).queue = cur p ++ norm p.queue := by
-  obtain ⟨q, d, a, c⟩ := p
+  obtain ⟨q, d, a, c, w⟩ := p
   cases d with
   | none => rw [processKeys_live, live_conserve]; simp [cur]
   | some f => rw [processKeys_done, afterDone_conserve]; simp [cur]
@@ -220,40 +220,39 @@ structure Settled (p : KP) : Prop where
   drained : p.done = none → p.queue = []
   noCpr : NoCpr p.queue
 
-theorem settled_afterDone (q : List Key) (f : Key) (a : List Key) (c : Nat)
-    (ha : AllOther a) (hf : f.isFin = true) : Settled (afterDone q f a c) :=
+theorem settled_afterDone (q : List Key) (f : Key) (a : List Key) (c w : Nat)
+    (ha : AllOther a) (hf : f.isFin = true) : Settled (afterDone q f a c w) :=
   ⟨ha, by intro g h; simp [afterDone] at h; subst h; exact hf,
    by intro h; simp [afterDone] at h, noCpr_dropCpr q⟩
 
-theorem settled_live (q a : List Key) (c : Nat) (ha : AllOther a) : Settled (live a c q) := by
-  induction q generalizing a c with
+theorem settled_live (q a : List Key) (c w : Nat) (ha : AllOther a) : Settled (live a c w q) := by
+  induction q generalizing a c w with
   | nil => exact ⟨ha, by simp [live], by simp [live], rfl⟩
   | cons k q ih =>
     cases k with
-    | cpr => exact ih a (c + 1) ha
+    | cpr => exact ih a (c + 1) (w - 1) ha
     | other x =>
-      exact ih _ c (ha.append (by intro k hk; simp at hk; subst hk; rfl))
-    | accept => exact settled_afterDone q _ a c ha rfl
-    | abort => exact settled_afterDone q _ a c ha rfl
-    | cj => exact settled_afterDone q _ a c ha rfl
+      exact ih _ c w (ha.append (by intro k hk; simp at hk; subst hk; rfl))
+    | accept => exact settled_afterDone q _ a c w ha rfl
+    | abort => exact settled_afterDone q _ a c w ha rfl
+    | cj => exact settled_afterDone q _ a c w ha rfl
 
 theorem settled_processKeys (p : KP) (ha : AllOther p.applied)
     (hf : ∀ f, p.done = some f → f.isFin = true) : Settled (processKeys p) := by
-  obtain ⟨q, d, a, c⟩ := p
+  obtain ⟨q, d, a, c, w⟩ := p
   cases d with
-  | none => rw [processKeys_live]; exact settled_live q a c ha
-  | some f => rw [processKeys_done]; exact settled_afterDone q f a c ha (hf f rfl)
+  | none => rw [processKeys_live]; exact settled_live q a c w ha
+  | some f => rw [processKeys_done]; exact settled_afterDone q f a c w ha (hf f rfl)
 
 /-- once the result is set, `process_keys` changes neither the applied keys nor the result -/
-theorem processKeys_frozen (q : List Key) (f : Key) (a : List Key) (c : Nat) :
-    (processKeys ⟨q, some f, a, c⟩).applied = a ∧ (processKeys ⟨q, some f, a, c⟩).done = some f ∧
-    (processKeys ⟨q, some f, a, c⟩).queue = dropCpr q ∧
-    (processKeys ⟨q, some f, a, c⟩).cprs = c + countCpr q := by
+theorem processKeys_frozen (q : List Key) (f : Key) (a : List Key) (c w : Nat) :
+    (processKeys ⟨q, some f, a, c, w⟩).applied = a ∧ (processKeys ⟨q, some f, a, c, w⟩).done = some f ∧
+    (processKeys ⟨q, some f, a, c, w⟩).queue = dropCpr q ∧
+    (processKeys ⟨q, some f, a, c, w⟩).cprs = c + countCpr q ∧
+    (processKeys ⟨q, some f, a, c, w⟩).waiting = w - countCpr q := by
   rw [processKeys_done]; simp [afterDone]
 
 /-! ### the reachable states -/
-def idleKP : KP := ⟨[], none, [], 0⟩
-
 def flat : List Res → List Key
   | [] => []
   | r :: rs => r.1 ++ [r.2] ++ flat rs
@@ -270,62 +269,109 @@ structure Inv (s : St) (w : List Key) : Prop where
   /-- conservation: consumed keys ++ keys still waiting = typed keys, in order -/
   cons : flat s.results ++ cur s.kp ++ norm s.typeahead ++ norm s.kp.queue ++ norm s.pipe = norm w
   settled : Settled s.kp
-  idle : s.running = false → s.kp = idleKP
-  taEmpty : s.running = true → s.typeahead = []
+  idle : s.running = false → s.exiting = false → s.kp = idleKP
+  taEmpty : (s.running = true ∨ s.exiting = true) → s.typeahead = []
   taNoCpr : NoCpr s.typeahead
   results : ∀ r ∈ s.results, GoodRes r
+  /-- the CPR wait belongs to an application whose result is set -/
+  exitingOk : s.exiting = true → s.running = false ∧ ∃ f, s.kp.done = some f
 
-theorem inv_init : Inv St.init [] :=
-  ⟨rfl, ⟨AllOther.nil, by simp [St.init], by simp [St.init], rfl⟩, fun _ => rfl,
-   fun h => by simp [St.init] at h, rfl, by intro r h; cases h⟩
+theorem settled_idle : Settled idleKP :=
+  ⟨AllOther.nil, by simp [idleKP], by simp [idleKP], rfl⟩
+
+theorem inv_init (r : Bool) : Inv (St.init r) [] :=
+  ⟨rfl, settled_idle, fun _ _ => rfl,
+   fun h => by simp [St.init] at h, rfl, (by intro r h; cases h), fun h => by simp [St.init] at h⟩
 
 def evWritten : Ev → List Key
   | .write c => c
   | _ => []
 
-theorem settled_idle : Settled idleKP :=
-  ⟨AllOther.nil, by simp [idleKP], by simp [idleKP], rfl⟩
+/-- the end of the exit path keeps the invariant -/
+theorem inv_leave {s : St} {w : List Key} (h : Inv s w) (f : Key) (hd : s.kp.done = some f)
+    (hta : s.typeahead = []) : Inv (leave s f) w := by
+  refine ⟨?_, settled_idle, fun _ _ => rfl, by simp [leave], ?_, ?_, by simp [leave]⟩
+  · have hc := h.cons
+    simp only [cur, hd] at hc
+    rw [← hc]
+    simp [leave, hta, flat_append, flat, cur, idleKP, norm_append, norm_dropCpr, norm_nil]
+  · simp only [leave]; exact h.taNoCpr.append (noCpr_dropCpr _)
+  · intro r hrm
+    simp only [leave] at hrm
+    rcases List.mem_append.1 hrm with hrm | hrm
+    · exact h.results r hrm
+    · simp at hrm; subst hrm
+      exact ⟨h.settled.applied, h.settled.fin f hd⟩
+
+theorem settled_waiting {p : KP} (h : Settled p) (x : Nat) : Settled { p with waiting := x } :=
+  ⟨h.applied, h.fin, h.drained, h.noCpr⟩
 
 theorem inv_step {s : St} {w : List Key} (h : Inv s w) (e : Ev) :
     Inv (step s e) (w ++ evWritten e) := by
   cases e with
   | write c =>
-    refine ⟨?_, h.settled, h.idle, h.taEmpty, h.taNoCpr, h.results⟩
+    refine ⟨?_, h.settled, h.idle, h.taEmpty, h.taNoCpr, h.results, h.exitingOk⟩
     simp only [step, evWritten, norm_append, ← h.cons]; simp
   | start =>
     simp only [step, evWritten, List.append_nil]
-    cases hr : s.running with
-    | true => simpa [hr] using h
-    | false =>
-      simp only [Bool.false_eq_true, if_false]
-      have hk := h.idle hr
-      have hc := h.cons
-      rw [hk] at hc
-      have hs : Settled (processKeys ⟨s.typeahead, none, [], 0⟩) :=
+    split
+    · exact h
+    · rename_i hc
+      have hr : s.running = false := by cases hr : s.running <;> simp_all
+      have he : s.exiting = false := by cases he : s.exiting <;> simp_all
+      have hk := h.idle hr he
+      have hcons := h.cons
+      rw [hk] at hcons
+      have hs : Settled (processKeys ⟨s.typeahead, none, [], 0, 0⟩) :=
         settled_processKeys _ AllOther.nil (by simp)
-      refine ⟨?_, hs, by simp, by simp, rfl, h.results⟩
-      have pc := processKeys_conserve ⟨s.typeahead, none, [], 0⟩
+      refine ⟨?_, settled_waiting hs _, fun hf => (by cases hf), fun _ => rfl, rfl, h.results,
+        fun hf => (by rw [he] at hf; cases hf)⟩
+      have pc := processKeys_conserve ⟨s.typeahead, none, [], 0, 0⟩
       simp only [norm_nil, List.append_nil]
-      rw [List.append_assoc (flat s.results), pc, ← hc]
+      have e1 : cur { processKeys ⟨s.typeahead, none, [], 0, 0⟩ with
+          waiting := if (s.responds && (processKeys ⟨s.typeahead, none, [], 0, 0⟩).queue.isEmpty &&
+            (processKeys ⟨s.typeahead, none, [], 0, 0⟩).done.isNone) = true then 1 else 0 } =
+          cur (processKeys ⟨s.typeahead, none, [], 0, 0⟩) := rfl
+      rw [e1, List.append_assoc (flat s.results), pc, ← hcons]
       simp [cur, idleKP, norm_nil]
   | read n =>
     simp only [step, evWritten, List.append_nil]
-    cases hr : s.running with
-    | false => simpa [hr] using h
-    | true =>
-      simp only [Bool.not_true, Bool.false_eq_true, if_false]
-      have hta := h.taEmpty hr
+    split
+    · exact h
+    · rename_i hc
+      have hre : s.running = true ∨ s.exiting = true := by
+        cases hr : s.running with
+        | true => exact Or.inl rfl
+        | false =>
+          cases he : s.exiting with
+          | true => exact Or.inr rfl
+          | false => simp [hr, he] at hc
+      have hta := h.taEmpty hre
       have hs : Settled (processKeys { s.kp with queue := s.kp.queue ++ s.pipe.take n }) :=
         settled_processKeys _ h.settled.applied h.settled.fin
-      refine ⟨?_, hs, by simp, by intro _; exact hta, h.taNoCpr, h.results⟩
-      have pc := processKeys_conserve { s.kp with queue := s.kp.queue ++ s.pipe.take n }
-      have hc := h.cons
-      rw [hta] at hc ⊢
-      simp only [norm_nil, List.append_nil] at hc ⊢
-      rw [List.append_assoc (flat s.results), pc, ← hc]
-      have : norm s.pipe = norm (s.pipe.take n) ++ norm (s.pipe.drop n) := by
-        rw [← norm_append, List.take_append_drop]
-      simp [cur, norm_append, this]
+      have hdone : ∀ f, s.kp.done = some f →
+          (processKeys { s.kp with queue := s.kp.queue ++ s.pipe.take n }).done = some f := by
+        intro f hd
+        cases hkp : s.kp with
+        | mk q d a c w' =>
+          rw [hkp] at hd; simp only at hd; subst hd
+          exact (processKeys_frozen _ f a c w').2.1
+      refine ⟨?_, hs, ?_, fun _ => hta, h.taNoCpr, h.results, ?_⟩
+      · have pc := processKeys_conserve { s.kp with queue := s.kp.queue ++ s.pipe.take n }
+        have hcons := h.cons
+        rw [hta] at hcons ⊢
+        simp only [norm_nil, List.append_nil] at hcons ⊢
+        rw [List.append_assoc (flat s.results), pc, ← hcons]
+        have : norm s.pipe = norm (s.pipe.take n) ++ norm (s.pipe.drop n) := by
+          rw [← norm_append, List.take_append_drop]
+        simp [cur, norm_append, this]
+      · intro hr he
+        rcases hre with h1 | h1
+        · rw [h1] at hr; cases hr
+        · rw [h1] at he; cases he
+      · intro he
+        obtain ⟨h1, f, hf⟩ := h.exitingOk he
+        exact ⟨h1, f, hdone f hf⟩
   | finish =>
     simp only [step, evWritten, List.append_nil]
     cases hr : s.running with
@@ -335,18 +381,18 @@ theorem inv_step {s : St} {w : List Key} (h : Inv s w) (e : Ev) :
       | none => simpa [hr, hd] using h
       | some f =>
         simp only []
-        have hta := h.taEmpty hr
-        refine ⟨?_, settled_idle, fun _ => rfl, by simp, ?_, ?_⟩
-        · have hc := h.cons
-          simp only [cur, hd] at hc
-          rw [← hc]
-          simp [flat_append, flat, cur, norm_append, norm_dropCpr, norm_nil]
-        · exact h.taNoCpr.append (noCpr_dropCpr _)
-        · intro r hrm
-          rcases List.mem_append.1 hrm with hrm | hrm
-          · exact h.results r hrm
-          · simp at hrm; subst hrm
-            exact ⟨h.settled.applied, h.settled.fin f hd⟩
+        have hta := h.taEmpty (Or.inl hr)
+        split
+        · refine ⟨h.cons, h.settled, by simp, fun _ => hta, h.taNoCpr, h.results, fun _ => ⟨rfl, f, hd⟩⟩
+        · exact inv_leave h f hd hta
+  | endWait =>
+    simp only [step, evWritten, List.append_nil]
+    cases he : s.exiting with
+    | false => simpa [he] using h
+    | true =>
+      cases hd : s.kp.done with
+      | none => simpa [he, hd] using h
+      | some f => exact inv_leave h f hd (h.taEmpty (Or.inr he))
 
 theorem written_eq (evs : List Ev) : written evs = (evs.map evWritten).flatten := by
   induction evs with
@@ -451,44 +497,44 @@ theorem unfinished_flat (R : List Res) (x : List Key) (hR : ∀ r ∈ R, GoodRes
 /-! ## The property theorems -/
 
 /-- every state a schedule can reach from the initial state satisfies the invariant -/
-theorem reachable_inv (evs : List Ev) : Inv (run St.init evs) (written evs) := by
-  simpa using inv_run inv_init evs
+theorem reachable_inv (r : Bool) (evs : List Ev) : Inv (run (St.init r) evs) (written evs) := by
+  simpa using inv_run (inv_init r) evs
 
 /-- **No key is lost, duplicated or reordered**, for every schedule (any chunking of the writes,
     any read sizes, any placement of starts / finishes, CPR reports anywhere):
     keys consumed by the finished prompts ++ keys taken by the current prompt ++ type-ahead store
     ++ input queue ++ unread pipe  =  the typed key stream (CPR reports removed, c-j = Enter). -/
-theorem no_loss_no_dup (evs : List Ev) :
-    ∀ s, s = run St.init evs →
+theorem no_loss_no_dup (r : Bool) (evs : List Ev) :
+    ∀ s, s = run (St.init r) evs →
     flat s.results ++ cur s.kp ++ norm s.typeahead ++ norm s.kp.queue ++ norm s.pipe
       = norm (written evs) :=
-  fun _ hs => hs ▸ (reachable_inv evs).cons
+  fun _ hs => hs ▸ (reachable_inv r evs).cons
 
 /-- the finished prompts are exactly the first lines of the typed stream -/
-theorem results_are_segments (evs : List Ev) :
-    ∀ s, s = run St.init evs →
+theorem results_are_segments (r : Bool) (evs : List Ev) :
+    ∀ s, s = run (St.init r) evs →
     ∃ more, segments (norm (written evs)) = s.results ++ more := by
   intro s hs
-  have h : Inv s (written evs) := hs ▸ reachable_inv evs
+  have h : Inv s (written evs) := hs ▸ reachable_inv r evs
   have hc := h.cons
   simp only [List.append_assoc] at hc
   refine ⟨segments (cur s.kp ++ (norm s.typeahead ++ (norm s.kp.queue ++ norm s.pipe))), ?_⟩
   rw [← hc]; exact segments_flat _ _ h.results
 
-theorem results_eq_take (evs : List Ev) :
-    (run St.init evs).results =
-      (segments (norm (written evs))).take (run St.init evs).results.length := by
-  obtain ⟨more, h⟩ := results_are_segments evs _ rfl
+theorem results_eq_take (r : Bool) (evs : List Ev) :
+    (run (St.init r) evs).results =
+      (segments (norm (written evs))).take (run (St.init r) evs).results.length := by
+  obtain ⟨more, h⟩ := results_are_segments r evs _ rfl
   rw [h]; simp
 
 /-- **Timing and chunking do not matter**: two schedules that type the same keys (possibly with
     different CPR reports at different places) and complete the same number of prompts return
     the same lines. -/
-theorem results_schedule_independent (evs₁ evs₂ : List Ev)
+theorem results_schedule_independent (r : Bool) (evs₁ evs₂ : List Ev)
     (hw : norm (written evs₁) = norm (written evs₂))
-    (hn : (run St.init evs₁).results.length = (run St.init evs₂).results.length) :
-    (run St.init evs₁).results = (run St.init evs₂).results := by
-  rw [results_eq_take evs₁, results_eq_take evs₂, hw, hn]
+    (hn : (run (St.init r) evs₁).results.length = (run (St.init r) evs₂).results.length) :
+    (run (St.init r) evs₁).results = (run (St.init r) evs₂).results := by
+  rw [results_eq_take r evs₁, results_eq_take r evs₂, hw, hn]
 
 /-- the script made of the given lines, each ended by Enter -/
 def script : List (List Key) → List Key
@@ -505,11 +551,11 @@ theorem script_eq_flat (lines : List (List Key)) :
     is `l₁ Enter l₂ Enter … l_k Enter tail`, then under every schedule the prompts that finish
     return `l₁, l₂, …` in this order — for an arbitrary line editor `render` — and when k prompts
     have finished they are exactly the k lines. -/
-theorem k_lines_k_prompts {α : Type} (render : List Key → α)
+theorem k_lines_k_prompts (r : Bool) {α : Type} (render : List Key → α)
     (lines : List (List Key)) (tail : List Key)
     (hl : ∀ l ∈ lines, AllOther l) (ht : NoFin tail)
     (evs : List Ev) (hw : norm (written evs) = script lines ++ tail) :
-    ∀ s, s = run St.init evs →
+    ∀ s, s = run (St.init r) evs →
     s.results.length ≤ lines.length ∧
     s.results.map (fun r => (render r.1, r.2)) =
       (lines.take s.results.length).map (fun l => (render l, Key.accept)) ∧
@@ -520,7 +566,7 @@ theorem k_lines_k_prompts {α : Type} (render : List Key → α)
   have hseg : segments (norm (written evs)) = lines.map (fun l => (l, Key.accept)) := by
     rw [hw, script_eq_flat, segments_flat _ _ hgood]
     simp [segments, segs_noFin [] tail ht]
-  have ht := results_eq_take evs
+  have ht := results_eq_take r evs
   rw [hseg, ← hs] at ht
   have hlen : s.results.length ≤ lines.length := by
     have := congrArg List.length ht
@@ -536,13 +582,13 @@ theorem k_lines_k_prompts {α : Type} (render : List Key → α)
 /-- **CPR reports never become text** (nor type-ahead): in every reachable state the keys applied
     to the current prompt, the keys of every finished prompt and the type-ahead store contain no
     CPR report, and a CPR report never ends a prompt. -/
-theorem cpr_never_text (evs : List Ev) :
-    ∀ s, s = run St.init evs →
+theorem cpr_never_text (r : Bool) (evs : List Ev) :
+    ∀ s, s = run (St.init r) evs →
     NoCpr s.kp.applied ∧ NoCpr s.typeahead ∧
     (∀ r ∈ s.results, NoCpr r.1 ∧ r.2.isCpr = false) ∧
     (s.kp.done.isSome = true → NoCpr s.kp.queue) := by
   intro s hs
-  have h : Inv s (written evs) := hs ▸ reachable_inv evs
+  have h : Inv s (written evs) := hs ▸ reachable_inv r evs
   refine ⟨h.settled.applied.noCpr, h.taNoCpr, ?_, fun _ => h.settled.noCpr⟩
   intro r hr
   have := h.results r hr
@@ -554,15 +600,15 @@ theorem cpr_never_text (evs : List Ev) :
     handed to the bindings (the queue is empty and the type-ahead store is empty), so the typed
     stream is  finished lines ++ keys applied to this prompt ++ what is still unread in the pipe.
     In particular a prompt can only wait forever if no accepting key is left outside the pipe. -/
-theorem waiting_prompt_has_everything_read (evs : List Ev) :
-    ∀ s, s = run St.init evs →
+theorem waiting_prompt_has_everything_read (r : Bool) (evs : List Ev) :
+    ∀ s, s = run (St.init r) evs →
     s.running = true → s.kp.done = none →
     s.kp.queue = [] ∧ s.typeahead = [] ∧
     norm (written evs) = flat s.results ++ s.kp.applied ++ norm s.pipe := by
   intro s hs hr hd
-  have h : Inv s (written evs) := hs ▸ reachable_inv evs
+  have h : Inv s (written evs) := hs ▸ reachable_inv r evs
   have hq := h.settled.drained hd
-  have hta := h.taEmpty hr
+  have hta := h.taEmpty (Or.inl hr)
   refine ⟨hq, hta, ?_⟩
   have hc := h.cons
   rw [hq, hta] at hc
@@ -572,63 +618,105 @@ theorem waiting_prompt_has_everything_read (evs : List Ev) :
 /-- **Keys after the accepting key are not applied to the accepted line**: between the accepting
     key `f` and the end of the application, the typed stream is
     finished lines ++ accepted line ++ [f] ++ queue (kept) ++ unread pipe. -/
-theorem accepted_prompt_keeps_later_keys (evs : List Ev) (f : Key) :
-    ∀ s, s = run St.init evs →
+theorem accepted_prompt_keeps_later_keys (r : Bool) (evs : List Ev) (f : Key) :
+    ∀ s, s = run (St.init r) evs →
     s.running = true → s.kp.done = some f →
     norm (written evs) = flat s.results ++ s.kp.applied ++ [f] ++ norm s.kp.queue ++ norm s.pipe := by
   intro s hs hr hd
-  have h : Inv s (written evs) := hs ▸ reachable_inv evs
-  have hta := h.taEmpty hr
+  have h : Inv s (written evs) := hs ▸ reachable_inv r evs
+  have hta := h.taEmpty (Or.inl hr)
   have hc := h.cons
   rw [hta] at hc
   simp only [cur, hd, norm_nil, List.append_nil] at hc
   rw [← hc]; simp
 
 /-- between two prompts everything unconsumed is in the type-ahead store or still in the pipe -/
-theorem idle_state_keeps_everything (evs : List Ev) :
-    ∀ s, s = run St.init evs →
-    s.running = false →
+theorem idle_state_keeps_everything (r : Bool) (evs : List Ev) :
+    ∀ s, s = run (St.init r) evs →
+    s.running = false → s.exiting = false →
     norm (written evs) = flat s.results ++ norm s.typeahead ++ norm s.pipe := by
-  intro s hs hr
-  have h : Inv s (written evs) := hs ▸ reachable_inv evs
+  intro s hs hr he
+  have h : Inv s (written evs) := hs ▸ reachable_inv r evs
   have hc := h.cons
-  rw [h.idle hr] at hc
+  rw [h.idle hr he] at hc
   simp only [cur, idleKP, norm_nil, List.append_nil] at hc
   exact hc.symm
 
-/-- **The accepted line is frozen**: once the result is set, no event except the end of the
-    application changes the applied keys, the result, or the list of finished prompts; reads only
-    consume CPR reports and keep every other key, in order, for the next prompt. -/
+/-- while the finished application waits for CPR responses, the keys that arrived after the
+    accepting key are all in its input queue (or still unread): none is lost -/
+theorem cpr_wait_keeps_later_keys (r : Bool) (evs : List Ev) :
+    ∀ s, s = run (St.init r) evs → s.exiting = true →
+    s.running = false ∧ ∃ f, s.kp.done = some f ∧
+    norm (written evs) = flat s.results ++ s.kp.applied ++ [f] ++ norm s.kp.queue ++ norm s.pipe := by
+  intro s hs he
+  have h : Inv s (written evs) := hs ▸ reachable_inv r evs
+  obtain ⟨hr, f, hd⟩ := h.exitingOk he
+  refine ⟨hr, f, hd, ?_⟩
+  have hc := h.cons
+  rw [h.taEmpty (Or.inr he)] at hc
+  simp only [cur, hd, norm_nil, List.append_nil] at hc
+  rw [← hc]; simp
+
+theorem step_read_active (t : St) (n : Nat) (h : t.running = true ∨ (t.exiting = true ∧ 0 < t.kp.waiting)) :
+    step t (.read n) = { t with pipe := t.pipe.drop n,
+                                kp := processKeys { t.kp with queue := t.kp.queue ++ t.pipe.take n } } := by
+  rcases h with h | ⟨h1, h2⟩
+  · simp [step, h]
+  · simp [step, h1, h2]
+
+/-- **The accepted line is frozen**: once the result is set — while the application still runs and
+    while it waits for CPR responses — no event except the end of the application changes the
+    applied keys, the result, or the list of finished prompts; reads only consume CPR reports and
+    keep every other key, in order, for the next prompt. -/
 theorem accepted_line_frozen (s : St) (f : Key) (e : Ev)
-    (hr : s.running = true) (hd : s.kp.done = some f) (he : e ≠ .finish) :
+    (hr : s.running = true ∨ s.exiting = true) (hd : s.kp.done = some f)
+    (he : e ≠ .finish) (he' : e ≠ .endWait) :
     (step s e).kp.applied = s.kp.applied ∧ (step s e).kp.done = some f ∧
-    (step s e).results = s.results ∧ (step s e).running = true ∧
+    (step s e).results = s.results ∧
     norm (step s e).kp.queue ++ norm (step s e).pipe = norm s.kp.queue ++ norm s.pipe ++ norm (evWritten e) := by
   cases e with
   | finish => exact absurd rfl he
-  | write c => simp [step, hr, hd, evWritten, norm_append]
-  | start => simp [step, hr, hd, evWritten, norm_nil]
+  | endWait => exact absurd rfl he'
+  | write c => simp [step, hd, evWritten, norm_append]
+  | start =>
+    have : step s .start = s := by rcases hr with h | h <;> simp [step, h]
+    rw [this]; simp [hd, evWritten, norm_nil]
   | read n =>
-    obtain ⟨pipe, ta, ⟨q, d, a, c⟩, running, results⟩ := s
-    simp only at hr hd
-    subst hr hd
-    have := processKeys_frozen (q ++ pipe.take n) f a c
-    simp only [step, Bool.not_true, Bool.false_eq_true, if_false, evWritten, norm_nil,
-      List.append_nil]
-    refine ⟨this.1, this.2.1, trivial, trivial, ?_⟩
-    rw [this.2.2.1, norm_dropCpr, norm_append, List.append_assoc, ← norm_append,
-      List.take_append_drop]
+    by_cases hact : s.running = true ∨ (s.exiting = true ∧ 0 < s.kp.waiting)
+    · rw [step_read_active s n hact]
+      cases hkp : s.kp with
+      | mk q d a c w =>
+        rw [hkp] at hd; simp only at hd; subst hd
+        have := processKeys_frozen (q ++ s.pipe.take n) f a c w
+        refine ⟨this.1, this.2.1, rfl, ?_⟩
+        simp only [evWritten, norm_nil, List.append_nil]
+        rw [this.2.2.1, norm_dropCpr, norm_append, List.append_assoc, ← norm_append,
+          List.take_append_drop]
+    · have : step s (.read n) = s := by
+        simp only [step]
+        split
+        · rfl
+        · rename_i hc
+          exfalso; apply hact
+          cases h1 : s.running with
+          | true => exact Or.inl rfl
+          | false =>
+            simp only [h1, Bool.not_false, Bool.true_and, Bool.not_eq_eq_eq_not, Bool.not_true,
+              Bool.and_eq_false_imp, decide_eq_false_iff_not, Classical.not_imp, Decidable.not_not] at hc
+            simpa using hc
+      rw [this]; simp [hd, evWritten, norm_nil]
 
 /-- what `process_keys` does with a queue `pre ++ f :: post` when no result is set yet and `f` is
     the first accepting key: the keys before `f` are applied (CPR reports reported, not applied),
     `f` sets the result, the keys after it stay in the queue in order, minus the CPR reports. -/
-theorem process_keys_splits_at_accept (pre post a : List Key) (c : Nat) (f : Key)
+theorem process_keys_splits_at_accept (pre post a : List Key) (c w : Nat) (f : Key)
     (hpre : ∀ k ∈ pre, k.isOther = true ∨ k.isCpr = true)
     (hf : f.isFin = true ∨ f = .cj) :
-    processKeys ⟨pre ++ f :: post, none, a, c⟩ =
-      ⟨dropCpr post, some (normKey f), a ++ dropCpr pre, c + countCpr pre + countCpr post⟩ := by
+    processKeys ⟨pre ++ f :: post, none, a, c, w⟩ =
+      ⟨dropCpr post, some (normKey f), a ++ dropCpr pre, c + countCpr pre + countCpr post,
+       w - countCpr pre - countCpr post⟩ := by
   rw [processKeys_live]
-  induction pre generalizing a c with
+  induction pre generalizing a c w with
   | nil =>
     rcases hf with hf | rfl
     · cases f <;> simp [Key.isFin] at hf <;> simp [live, afterDone, normKey, dropCpr, countCpr]
@@ -639,56 +727,97 @@ theorem process_keys_splits_at_accept (pre post a : List Key) (c : Nat) (f : Key
       fun x hx => hpre x (List.mem_cons_of_mem _ hx)
     cases k with
     | cpr =>
-      simp only [List.cons_append, live]; rw [ih _ _ hpre']
+      simp only [List.cons_append, live]; rw [ih _ _ _ hpre']
       simp [dropCpr, countCpr, Key.isCpr]; omega
     | other x =>
-      simp only [List.cons_append, live]; rw [ih _ _ hpre']
+      simp only [List.cons_append, live]; rw [ih _ _ _ hpre']
       simp [dropCpr, countCpr, Key.isCpr]
     | accept => simp [Key.isOther, Key.isCpr] at hk
     | abort => simp [Key.isOther, Key.isCpr] at hk
     | cj => simp [Key.isOther, Key.isCpr] at hk
 
 /-- without an accepting key the whole queue is applied and the queue is empty afterwards -/
-theorem process_keys_applies_all (q a : List Key) (c : Nat)
+theorem process_keys_applies_all (q a : List Key) (c w : Nat)
     (hq : ∀ k ∈ q, k.isOther = true ∨ k.isCpr = true) :
-    processKeys ⟨q, none, a, c⟩ = ⟨[], none, a ++ dropCpr q, c + countCpr q⟩ := by
+    processKeys ⟨q, none, a, c, w⟩ = ⟨[], none, a ++ dropCpr q, c + countCpr q, w - countCpr q⟩ := by
   rw [processKeys_live]
-  induction q generalizing a c with
+  induction q generalizing a c w with
   | nil => simp [live, dropCpr, countCpr]
   | cons k q ih =>
     have hk := hq k (List.mem_cons_self ..)
     have hq' : ∀ k ∈ q, k.isOther = true ∨ k.isCpr = true :=
       fun x hx => hq x (List.mem_cons_of_mem _ hx)
     cases k with
-    | cpr => simp only [live]; rw [ih _ _ hq']; simp [dropCpr, countCpr, Key.isCpr]; omega
-    | other x => simp only [live]; rw [ih _ _ hq']; simp [dropCpr, countCpr, Key.isCpr]
+    | cpr => simp only [live]; rw [ih _ _ _ hq']; simp [dropCpr, countCpr, Key.isCpr]; omega
+    | other x => simp only [live]; rw [ih _ _ _ hq']; simp [dropCpr, countCpr, Key.isCpr]
     | accept => simp [Key.isOther, Key.isCpr] at hk
     | abort => simp [Key.isOther, Key.isCpr] at hk
     | cj => simp [Key.isOther, Key.isCpr] at hk
 
 /-- `process_keys` terminates with its loop condition false (the fuel of the model is enough) -/
 theorem processKeys_stable (p : KP) : procStep (processKeys p) = none := by
-  obtain ⟨q, d, a, c⟩ := p
+  obtain ⟨q, d, a, c, w⟩ := p
   cases d with
-  | none => rw [processKeys_live]; exact procStep_live q a c
-  | some f => rw [processKeys_done]; exact procStep_afterDone q f a c
+  | none => rw [processKeys_live]; exact procStep_live q a c w
+  | some f => rw [processKeys_done]; exact procStep_afterDone q f a c w
 
-/-- **Keys after the accept go to the next prompt**: ending an application and starting the next
-    one on the same input hands the kept keys (queue without CPR reports), in order, to the new
-    application's `process_keys`, and the store is emptied. -/
+/-- **Keys after the accept go to the next prompt** (no CPR request outstanding): ending an
+    application and starting the next one on the same input hands the kept keys (queue without CPR
+    reports), in order, to the new application's `process_keys`, and the store is emptied. -/
 theorem after_accept_goes_next (s : St) (f : Key)
-    (hr : s.running = true) (hd : s.kp.done = some f) (hta : s.typeahead = []) :
+    (hr : s.running = true) (hd : s.kp.done = some f) (hta : s.typeahead = [])
+    (hw : (s.responds && decide (0 < s.kp.waiting)) = false) :
     (step s .finish).typeahead = dropCpr s.kp.queue ∧
     (step s .finish).results = s.results ++ [(s.kp.applied, f)] ∧
-    (step (step s .finish) .start).kp = processKeys ⟨dropCpr s.kp.queue, none, [], 0⟩ ∧
-    (step (step s .finish) .start).typeahead = [] := by
-  simp [step, hr, hd, hta]
+    (step s .finish).running = false ∧ (step s .finish).exiting = false ∧
+    (step (step s .finish) .start).typeahead = [] ∧
+    ∃ w, (step (step s .finish) .start).kp =
+      { processKeys ⟨dropCpr s.kp.queue, none, [], 0, 0⟩ with waiting := w } := by
+  simp [step, leave, hr, hd, hta, hw]
 
-/-- a read while no application is running is ignored (bytes stay in the pipe) -/
-theorem read_ignored_when_idle (s : St) (n : Nat) (hr : s.running = false) :
+/-- with a CPR request outstanding the finished application does not store the type-ahead yet: it
+    stays attached to the input and waits -/
+theorem finish_waits_for_cpr (s : St) (f : Key)
+    (hr : s.running = true) (hd : s.kp.done = some f) (hres : s.responds = true)
+    (hw : 0 < s.kp.waiting) :
+    step s .finish = { s with running := false, exiting := true } := by
+  simp [step, hr, hd, hres, hw]
+
+/-- **Keys that arrive while the finished application waits for the CPR answer become type-ahead**:
+    they are read into the input queue (CPR answers are consumed, nothing else is processed), and
+    when the wait ends — answer or timeout — the queue is stored for the next prompt, after
+    everything that was kept before, in order.  (This is what moving `store_typeahead` in front of
+    `wait_for_cpr_responses` breaks.) -/
+theorem keys_read_during_cpr_wait_become_typeahead (s : St) (f : Key) (n : Nat)
+    (he : s.exiting = true) (hd : s.kp.done = some f) (hw : 0 < s.kp.waiting)
+    (hta : s.typeahead = []) :
+    (step s (.read n)).exiting = true ∧
+    (step s (.read n)).kp.queue = dropCpr s.kp.queue ++ dropCpr (s.pipe.take n) ∧
+    (step s (.read n)).kp.applied = s.kp.applied ∧
+    (step s (.read n)).pipe = s.pipe.drop n ∧
+    (step (step s (.read n)) .endWait).typeahead = dropCpr s.kp.queue ++ dropCpr (s.pipe.take n) ∧
+    (step (step s (.read n)) .endWait).results = s.results ++ [(s.kp.applied, f)] ∧
+    (step (step s (.read n)) .endWait).exiting = false := by
+  rw [step_read_active s n (Or.inr ⟨he, hw⟩)]
+  cases hkp : s.kp with
+  | mk q d a c w =>
+    rw [hkp] at hd; simp only at hd; subst hd
+    have := processKeys_frozen (q ++ s.pipe.take n) f a c w
+    obtain ⟨f1, f2, f3, _, _⟩ := this
+    refine ⟨he, by rw [f3, dropCpr_append], f1, rfl, ?_, ?_, ?_⟩
+    · simp [step, leave, he, f2, f3, hta, dropCpr_append, dropCpr_idem]
+    · simp [step, leave, he, f2, f1]
+    · simp [step, leave, he, f2]
+
+/-- a read while no application is running or waiting is ignored (bytes stay in the pipe) -/
+theorem read_ignored_when_idle (s : St) (n : Nat) (hr : s.running = false) (he : s.exiting = false) :
     step s (.read n) = s := by
-  simp [step, hr]
+  simp [step, hr, he]
 
+/-- … and so is a read by a finished application whose CPR requests have all been answered -/
+theorem read_ignored_after_cpr_answer (s : St) (n : Nat) (hr : s.running = false)
+    (hw : s.kp.waiting = 0) : step s (.read n) = s := by
+  simp [step, hr, hw]
 
 /-! ### a fair schedule completes: all bytes written first, then k prompts -/
 theorem run_append (s : St) (a b : List Ev) : run s (a ++ b) = run (run s a) b := by
@@ -696,10 +825,11 @@ theorem run_append (s : St) (a b : List Ev) : run s (a ++ b) = run (run s a) b :
   | nil => rfl
   | cons e a ih => simp [run, ih]
 
-/-- k times: start a prompt, let it read everything that is available, let it end -/
+/-- k times: start a prompt, let it read everything that is available, let it end (and let an
+    outstanding CPR wait end) -/
 def rounds (N : Nat) : Nat → List Ev
   | 0 => []
-  | k + 1 => [.start, .read N, .finish] ++ rounds N k
+  | k + 1 => [.start, .read N, .finish, .endWait] ++ rounds N k
 
 theorem inv_step_nowrite {s : St} {w : List Key} (h : Inv s w) (e : Ev) (he : evWritten e = []) :
     Inv (step s e) w := by
@@ -707,40 +837,39 @@ theorem inv_step_nowrite {s : St} {w : List Key} (h : Inv s w) (e : Ev) (he : ev
 
 theorem segments_noFin (l : List Key) (h : NoFin l) : segments l = [] := segs_noFin [] l h
 
-theorem step_start_idle (t : St) (h : t.running = false) :
-    step t .start = { t with typeahead := [], running := true,
-                             kp := processKeys ⟨t.typeahead, none, [], 0⟩ } := by
-  simp [step, h]
-
-theorem step_read_running (t : St) (n : Nat) (h : t.running = true) :
-    step t (.read n) = { t with pipe := t.pipe.drop n,
-                                kp := processKeys { t.kp with queue := t.kp.queue ++ t.pipe.take n } } := by
-  simp [step, h]
-
-theorem step_finish_done (t : St) (f : Key) (h : t.running = true) (hd : t.kp.done = some f) :
-    step t .finish = { t with running := false, results := t.results ++ [(t.kp.applied, f)],
-                              typeahead := t.typeahead ++ dropCpr t.kp.queue, kp := ⟨[], none, [], 0⟩ } := by
-  simp [step, h, hd]
+theorem finish_endWait (t : St) (f : Key) (hr : t.running = true) (hd : t.kp.done = some f) :
+    step (step t .finish) .endWait = leave t f := by
+  by_cases hw : (t.responds && decide (0 < t.kp.waiting)) = true
+  · have e : step t .finish = { t with running := false, exiting := true } := by
+      simp only [step, hr, hd]; simp [hw]
+    rw [e]; simp [step, hd, leave]
+  · have e : step t .finish = leave t f := by
+      simp only [step, hr, hd]; simp [hw]
+    rw [e]; simp [step, leave]
 
 theorem one_round {s : St} {w : List Key} (N : Nat) (h : Inv s w) (hr : s.running = false)
+    (he : s.exiting = false)
     (hp : s.pipe.length ≤ N) (hseg : segments (norm s.typeahead ++ norm s.pipe) ≠ []) :
-    let s' := run s [.start, .read N, .finish]
-    Inv s' w ∧ s'.running = false ∧ s'.pipe = [] ∧ s'.results.length = s.results.length + 1 := by
+    let s' := run s [.start, .read N, .finish, .endWait]
+    Inv s' w ∧ s'.running = false ∧ s'.exiting = false ∧ s'.pipe = [] ∧
+    s'.results.length = s.results.length + 1 := by
   intro s'
   have h1 : Inv (step s .start) w := inv_step_nowrite h _ rfl
   have h2 : Inv (step (step s .start) (.read N)) w := inv_step_nowrite h1 _ rfl
   have h3 : Inv (step (step (step s .start) (.read N)) .finish) w := inv_step_nowrite h2 _ rfl
-  have e' : s' = step (step (step s .start) (.read N)) .finish := rfl
-  have r1 : (step s .start).running = true := by rw [step_start_idle s hr]
-  have p1 : (step s .start).pipe = s.pipe := by rw [step_start_idle s hr]
-  have res1 : (step s .start).results = s.results := by rw [step_start_idle s hr]
+  have h4 : Inv (step (step (step (step s .start) (.read N)) .finish) .endWait) w :=
+    inv_step_nowrite h3 _ rfl
+  have e' : s' = step (step (step (step s .start) (.read N)) .finish) .endWait := rfl
+  have r1 : (step s .start).running = true := by simp [step, hr, he]
+  have p1 : (step s .start).pipe = s.pipe := by simp [step, hr, he]
+  have res1 : (step s .start).results = s.results := by simp [step, hr, he]
   have r2 : (step (step s .start) (.read N)).running = true := by
-    rw [step_read_running _ N r1]; exact r1
+    rw [step_read_active _ N (Or.inl r1)]; exact r1
   have p2 : (step (step s .start) (.read N)).pipe = [] := by
-    rw [step_read_running _ N r1]; simp only [p1]
+    rw [step_read_active _ N (Or.inl r1)]; simp only [p1]
     exact List.drop_eq_nil_of_le hp
   have res2 : (step (step s .start) (.read N)).results = s.results := by
-    rw [step_read_running _ N r1]; exact res1
+    rw [step_read_active _ N (Or.inl r1)]; exact res1
   -- the prompt has its result after reading everything
   have hdone : ∃ f, (step (step s .start) (.read N)).kp.done = some f := by
     cases hd : (step (step s .start) (.read N)).kp.done with
@@ -748,67 +877,72 @@ theorem one_round {s : St} {w : List Key} (N : Nat) (h : Inv s w) (hr : s.runnin
     | none =>
       exfalso; apply hseg
       have hq := h2.settled.drained hd
-      have hta := h2.taEmpty r2
+      have hta := h2.taEmpty (Or.inl r2)
       have hc2 := h2.cons
       rw [hq, hta, p2, res2] at hc2
       simp only [cur, hd, norm_nil, List.append_nil] at hc2
       have hc := h.cons
-      rw [h.idle hr] at hc
+      rw [h.idle hr he] at hc
       simp only [cur, idleKP, norm_nil, List.append_nil, List.append_assoc] at hc
       have : norm s.typeahead ++ norm s.pipe = (step (step s .start) (.read N)).kp.applied :=
         List.append_cancel_left (hc.trans hc2.symm)
       rw [this]; exact segments_noFin _ h2.settled.applied.noFin
   obtain ⟨f, hd⟩ := hdone
-  refine ⟨e' ▸ h3, ?_, ?_, ?_⟩
-  · rw [e', step_finish_done _ f r2 hd]
-  · rw [e', step_finish_done _ f r2 hd]; exact p2
-  · rw [e', step_finish_done _ f r2 hd]; simp [res2]
+  have el := finish_endWait _ f r2 hd
+  refine ⟨e' ▸ h4, ?_, ?_, ?_, ?_⟩
+  · rw [e', el]; rfl
+  · rw [e', el]; rfl
+  · rw [e', el]; exact p2
+  · rw [e', el]; simp [leave, res2]
 
 theorem rounds_complete (N : Nat) (k : Nat) : ∀ {s : St} {w : List Key}, Inv s w →
-    s.running = false → s.pipe.length ≤ N →
+    s.running = false → s.exiting = false → s.pipe.length ≤ N →
     k ≤ (segments (norm s.typeahead ++ norm s.pipe)).length →
     Inv (run s (rounds N k)) w ∧ (run s (rounds N k)).running = false ∧
+    (run s (rounds N k)).exiting = false ∧
     (run s (rounds N k)).results.length = s.results.length + k := by
   induction k with
-  | zero => intro s w h hr _ _; exact ⟨h, hr, rfl⟩
+  | zero => intro s w h hr he _ _; exact ⟨h, hr, he, rfl⟩
   | succ k ih =>
-    intro s w h hr hp hk
+    intro s w h hr he hp hk
     have hne : segments (norm s.typeahead ++ norm s.pipe) ≠ [] := by
       intro e; rw [e] at hk; simp at hk
-    obtain ⟨h', hr', hp', hl'⟩ := one_round N h hr hp hne
+    obtain ⟨h', hr', he', hp', hl'⟩ := one_round N h hr he hp hne
     simp only [rounds, run_append]
     -- one line fewer is pending after the round
     have hc := h.cons
-    rw [h.idle hr] at hc
+    rw [h.idle hr he] at hc
     simp only [cur, idleKP, norm_nil, List.append_nil, List.append_assoc] at hc
     have hc' := h'.cons
-    rw [h'.idle hr'] at hc'
+    rw [h'.idle hr' he'] at hc'
     simp only [cur, idleKP, norm_nil, List.append_nil, List.append_assoc] at hc'
     have e1 := segments_flat s.results (norm s.typeahead ++ norm s.pipe) h.results
-    have e2 := segments_flat _ (norm (run s [.start, .read N, .finish]).typeahead ++
-      norm (run s [.start, .read N, .finish]).pipe) h'.results
+    have e2 := segments_flat _ (norm (run s [.start, .read N, .finish, .endWait]).typeahead ++
+      norm (run s [.start, .read N, .finish, .endWait]).pipe) h'.results
     rw [hc] at e1; rw [hc'] at e2
     have hlen := congrArg List.length (e1.symm.trans e2)
     simp only [List.length_append, hl'] at hlen
-    have := ih h' hr' (by rw [hp']; simp) (by omega)
-    refine ⟨this.1, this.2.1, ?_⟩
-    rw [this.2.2, hl']; omega
+    have := ih h' hr' he' (by rw [hp']; simp) (by omega)
+    refine ⟨this.1, this.2.1, this.2.2.1, ?_⟩
+    rw [this.2.2.2, hl']; omega
 
 /-- **A script of k lines fed to k consecutive prompts yields exactly those k lines** when all
     bytes are delivered before the first prompt (every prompt starts, reads what is available and
-    ends): the k prompts all finish — no accepting key is lost — and return the first k lines of
-    the typed stream; CPR reports anywhere in `w` make no difference. -/
-theorem all_at_once_k_prompts (w : List Key) (k : Nat) (hk : k ≤ (segments (norm w)).length) :
-    ∀ s, s = run St.init (.write w :: rounds w.length k) →
-    s.running = false ∧ s.results = (segments (norm w)).take k := by
+    ends, waiting for outstanding CPR answers where the output asks for them): the k prompts all
+    finish — no accepting key is lost — and return the first k lines of the typed stream; CPR
+    reports anywhere in `w` make no difference. -/
+theorem all_at_once_k_prompts (r : Bool) (w : List Key) (k : Nat) (hk : k ≤ (segments (norm w)).length) :
+    ∀ s, s = run (St.init r) (.write w :: rounds w.length k) →
+    s.running = false ∧ s.exiting = false ∧ s.results = (segments (norm w)).take k := by
   intro s hs
-  have h0 : Inv (step St.init (.write w)) w := by simpa [evWritten] using inv_step inv_init (.write w)
-  have hrun : s = run (step St.init (.write w)) (rounds w.length k) := by rw [hs]; rfl
+  have h0 : Inv (step (St.init r) (.write w)) w := by
+    simpa [evWritten] using inv_step (inv_init r) (.write w)
+  have hrun : s = run (step (St.init r) (.write w)) (rounds w.length k) := by rw [hs]; rfl
   have := rounds_complete w.length k h0 (by simp [step, St.init]) (by simp [step, St.init])
-    (by simpa [step, St.init, norm_nil] using hk)
+    (by simp [step, St.init]) (by simpa [step, St.init, norm_nil] using hk)
   rw [← hrun] at this
-  obtain ⟨hi, hr, hl⟩ := this
-  refine ⟨hr, ?_⟩
+  obtain ⟨hi, hr, he, hl⟩ := this
+  refine ⟨hr, he, ?_⟩
   have hc := hi.cons
   simp only [List.append_assoc] at hc
   have e1 := segments_flat s.results
@@ -818,9 +952,9 @@ theorem all_at_once_k_prompts (w : List Key) (k : Nat) (hk : k ≤ (segments (no
   rw [e1, ← hl']; simp
 
 /-- the same for an explicit script `l₁ Enter … l_k Enter` and an arbitrary line editor -/
-theorem script_all_at_once {α : Type} (render : List Key → α) (lines : List (List Key))
+theorem script_all_at_once (r : Bool) {α : Type} (render : List Key → α) (lines : List (List Key))
     (hl : ∀ l ∈ lines, AllOther l) (w : List Key) (hw : norm w = script lines) :
-    ∀ s, s = run St.init (.write w :: rounds w.length lines.length) →
+    ∀ s, s = run (St.init r) (.write w :: rounds w.length lines.length) →
     s.running = false ∧ s.results.map (fun r => render r.1) = lines.map render ∧
     s.typeahead = [] ∧ norm s.pipe = [] := by
   intro s hs
@@ -830,14 +964,15 @@ theorem script_all_at_once {α : Type} (render : List Key → α) (lines : List 
     have := segments_flat _ [] hgood
     rw [List.append_nil] at this
     rw [hw, script_eq_flat, this]; simp [segments, segs]
-  obtain ⟨hr, hres⟩ := all_at_once_k_prompts w lines.length (by rw [hseg, List.length_map]; exact Nat.le_refl _) s hs
+  obtain ⟨hr, he, hres⟩ := all_at_once_k_prompts r w lines.length
+    (by rw [hseg, List.length_map]; exact Nat.le_refl _) s hs
   rw [hseg] at hres
   have hres' : s.results = lines.map (fun l => (l, Key.accept)) := by
     rw [hres]; exact List.take_of_length_le (by simp)
   refine ⟨hr, by rw [hres']; simp [Function.comp_def], ?_⟩
   -- nothing is left over
   have hi : Inv s w := by
-    have := reachable_inv (.write w :: rounds w.length lines.length)
+    have := reachable_inv r (.write w :: rounds w.length lines.length)
     rw [← hs] at this
     have hw' : written (.write w :: rounds w.length lines.length) = w := by
       have : ∀ k, written (rounds w.length k) = [] := by
@@ -847,7 +982,7 @@ theorem script_all_at_once {α : Type} (render : List Key → α) (lines : List 
       simp [written, this]
     rwa [hw'] at this
   have hc := hi.cons
-  rw [hi.idle hr, hres', ← script_eq_flat, hw] at hc
+  rw [hi.idle hr he, hres', ← script_eq_flat, hw] at hc
   simp only [cur, idleKP, norm_nil, List.append_nil, List.append_assoc] at hc
   have : norm s.typeahead ++ norm s.pipe = [] := by
     have := List.append_cancel_left (hc.trans (List.append_nil _).symm)
@@ -870,22 +1005,22 @@ def exEvs : List Ev :=
    .write [.cpr, .cj, .other 99, .abort], .read 10, .finish,
    .start, .finish, .start, .read 1, .finish]
 
-example : (run St.init exEvs).results =
+example : (run (St.init false) exEvs).results =
     [([.other 97], .accept), ([.other 98], .accept), ([.other 99], .abort)] := by decide
 example : norm (written exEvs) =
     [.other 97, .accept, .other 98, .accept, .other 99, .abort] := by decide
 -- in the middle of `exEvs`: result set, two CPR reports consumed, later keys kept in the queue
-example : (run St.init (exEvs.take 5)).kp =
-    ⟨[.other 98, .cj, .other 99, .abort], some .accept, [.other 97], 2⟩ := by decide
+example : (run (St.init false) (exEvs.take 5)).kp =
+    ⟨[.other 98, .cj, .other 99, .abort], some .accept, [.other 97], 2, 0⟩ := by decide
 -- the same keys, other chunking / CPR placement / read sizes / finish points: same results
 def exEvs' : List Ev :=
   [.write [.other 97], .write [.accept, .cpr, .cpr, .other 98, .cj], .start, .read 1, .read 1, .finish,
    .read 7, .start, .write [.other 99], .read 2, .finish, .start, .read 9, .write [.abort, .cpr],
    .read 1, .finish, .read 1, .start, .finish]
 example : norm (written exEvs) = norm (written exEvs') := by decide
-example : (run St.init exEvs').results = (run St.init exEvs).results := by decide
-example : (run St.init exEvs').results = (run St.init exEvs).results :=
-  results_schedule_independent _ _ (by decide) (by decide)
+example : (run (St.init false) exEvs').results = (run (St.init false) exEvs).results := by decide
+example : (run (St.init false) exEvs').results = (run (St.init false) exEvs).results :=
+  results_schedule_independent false _ _ (by decide) (by decide)
 
 -- k_lines_k_prompts: hypotheses hold for a 2-line script with a tail, CPRs and c-j in the stream
 example : norm [Key.other 1, .cpr, .other 2, .cj, .cpr, .other 3, .accept, .other 4]
@@ -896,25 +1031,25 @@ example : ∀ l ∈ [[Key.other 1, .other 2], [.other 3]], AllOther l := by
 example : NoFin [Key.other 4] := by intro k hk; simp at hk; subst hk; rfl
 
 -- process_keys_splits_at_accept on a queue with CPR reports on both sides of c-j
-example : processKeys ⟨[.other 1, .cpr] ++ .cj :: [.cpr, .other 2, .accept], none, [.other 0], 5⟩ =
-    ⟨[.other 2, .accept], some .accept, [.other 0, .other 1], 7⟩ := by decide
+example : processKeys ⟨[.other 1, .cpr] ++ .cj :: [.cpr, .other 2, .accept], none, [.other 0], 5, 1⟩ =
+    ⟨[.other 2, .accept], some .accept, [.other 0, .other 1], 7, 0⟩ := by decide
 
 -- accepted_line_frozen / after_accept_goes_next: a reachable state with a result and kept keys
-example : let s := run St.init (exEvs.take 5)
+example : let s := run (St.init false) (exEvs.take 5)
     s.running = true ∧ s.kp.done = some .accept ∧ s.typeahead = [] ∧ s.kp.queue ≠ [] := by decide
 
 -- all_at_once_k_prompts: 3 lines written at once (with CPR reports), 3 prompts
 example : (segments (norm (written exEvs))).length = 3 := by decide
-example : (run St.init (.write (written exEvs) :: rounds (written exEvs).length 3)).results =
+example : (run (St.init false) (.write (written exEvs) :: rounds (written exEvs).length 3)).results =
     [([.other 97], .accept), ([.other 98], .accept), ([.other 99], .abort)] := by decide
 
 -- waiting_prompt_has_everything_read: a prompt that waits although an Enter was typed has it
 -- still unread in the pipe
-example : let s := run St.init [.start, .write [.other 1, .accept], .read 1]
+example : let s := run (St.init false) [.start, .write [.other 1, .accept], .read 1]
     s.running = true ∧ s.kp.done = none ∧ s.pipe = [.accept] ∧ s.kp.applied = [.other 1] := by decide
 
 -- the stale reader callback: a read between two prompts leaves the pipe alone
-example : (run St.init [.write [.other 1], .read 5]).pipe = [.other 1] := by decide
+example : (run (St.init false) [.write [.other 1], .read 5]).pipe = [.other 1] := by decide
 
 /-! why the `is_done` gate matters: a `process_keys` that keeps popping the queue after the result
     is set applies the keys typed after Enter to the accepted line (and loses them for the next
@@ -927,10 +1062,34 @@ def iterNoGate : Nat → KP → KP
     | k :: q => iterNoGate n (handle { p with queue := q } k)
 
 theorem no_gate_misapplies_typeahead :
-    (iterNoGate 5 ⟨[.other 97, .accept, .other 98], none, [], 0⟩).applied = [.other 97, .other 98] ∧
-    (iterNoGate 5 ⟨[.other 97, .accept, .other 98], none, [], 0⟩).queue = [] ∧
-    (processKeys ⟨[.other 97, .accept, .other 98], none, [], 0⟩).applied = [.other 97] ∧
-    (processKeys ⟨[.other 97, .accept, .other 98], none, [], 0⟩).queue = [.other 98] := by decide
+    (iterNoGate 5 ⟨[.other 97, .accept, .other 98], none, [], 0, 0⟩).applied = [.other 97, .other 98] ∧
+    (iterNoGate 5 ⟨[.other 97, .accept, .other 98], none, [], 0, 0⟩).queue = [] ∧
+    (processKeys ⟨[.other 97, .accept, .other 98], none, [], 0, 0⟩).applied = [.other 97] ∧
+    (processKeys ⟨[.other 97, .accept, .other 98], none, [], 0, 0⟩).queue = [.other 98] := by decide
+
+/-! the CPR wait of a finished application (output that answers CPR requests): prompt 1 asks for the
+    cursor position, `a Enter` is accepted before the answer, `b Enter` arrives during the wait,
+    then the answer arrives — `b Enter` is the type-ahead of prompt 2 (seeded/C17-a loses it) -/
+def exWait : List Ev :=
+  [.start, .write [.other 97, .accept], .read 9, .finish, .write [.other 98, .accept], .read 9,
+   .write [.cpr], .read 9, .endWait, .start, .finish, .endWait]
+
+example : (run (St.init true) (exWait.take 1)).kp.waiting = 1 := by decide
+example : let s := run (St.init true) (exWait.take 6)
+    s.exiting = true ∧ s.running = false ∧ s.kp.waiting = 1 ∧ s.results = [] ∧
+    s.kp.queue = [.other 98, .accept] := by decide
+example : let s := run (St.init true) (exWait.take 8)
+    s.exiting = true ∧ s.kp.waiting = 0 ∧ s.kp.queue = [.other 98, .accept] := by decide
+example : (run (St.init true) (exWait.take 9)).typeahead = [.other 98, .accept] := by decide
+example : (run (St.init true) exWait).results = [([.other 97], .accept), ([.other 98], .accept)] := by
+  decide
+-- without an answer the wait ends by its timeout: same result
+example : (run (St.init true) [.start, .write [.other 97, .accept], .read 9, .finish,
+    .write [.other 98, .accept], .read 9, .endWait, .start, .finish, .endWait]).results =
+    [([.other 97], .accept), ([.other 98], .accept)] := by decide
+-- after the answer the finished application ignores further reads (the bytes stay in the pipe)
+example : (run (St.init true) (exWait.take 8 ++ [.write [.other 99], .read 9])).pipe = [.other 99] := by
+  decide
 
 end examples
 
